@@ -319,8 +319,9 @@ def r10_media_type_predicates(chk: Check) -> None:
     if tup is None:
         chk.undecided("C04.R10", pf, "parse returns (main, sub)", "return shape not recognised", pf.loc())
     else:
-        low = [any(x.endswith(".lower()") for x in canon(pf, e)) for e in tup.elts]
-        chk.decide(True if all(low) else False, "C04.R10", pf, "both parts of the media type are lower-cased",
+        low = [any(".lower()" in x for x in canon(pf, e)) for e in tup.elts]
+        whole = any(isinstance(c, ast.Call) and last_attr(c) == "lower" and isinstance(c.func, ast.Attribute) and isinstance(c.func.value, ast.Name) and c.func.value.id in params_of(pf.node) for c in body_calls(pf))
+        chk.decide(True if (all(low) or whole) else False, "C04.R10", pf, "both parts of the media type are lower-cased",
                    f"{'main type' if not low[0] else 'subtype'} keeps its spelling: `Application/JSON` / `application/Problem+JSON` is not recognised as JSON, the body is not validated against the documented schema (or a documented `application/json` entry is not matched)", pf.loc(tup))
         strips = any(last_attr(c) in ("_parse_header",) for c in body_calls(pf))
         chk.decide(True if strips else None, "C04.R10", pf, "parameters (`; charset=...`) are split off before the comparison", "parameter handling not recognised", pf.loc())
